@@ -77,3 +77,45 @@ Fixpoint lines_eqb (a b : list str) {struct a} : bool :=
   end.
 
 Definition lines_agree (p : str * list str) : bool := lines_eqb (regal_lines (fst p)) (snd p).
+
+(* ---- boundary-shift cases.  There are thousands of them, and Coq reads literals slowly: the text the harness
+   linted is sent as (length, digest) and compared with the length and digest of the model's text; the line table
+   for [texts_agree] is then the model's. *)
+Definition hash_p : N := 2305843009213693951.   (* 2^61 - 1 *)
+Definition hash_m : N := 1000003.
+Definition hash_str (s : str) : N := fold_left (fun h c => (h * hash_m + c + 1) mod hash_p) s 0.
+
+Record dig_case := { d_orig : str; d_ops : list op; d_len : N; d_hash : N;
+                     d_id : list loc; d_emb : list loc; d_texts : list (N * str) }.
+
+Definition dig_ldoc (c : dig_case) : ldoc := mk_ldoc (regal_lines (d_orig c)) EolLF.
+Definition dig_model_text (c : dig_case) : str := text_of (apply_ops (d_ops c) (dig_ldoc c)).
+
+Definition dig_as_emb (c : dig_case) (got : str) : emb_case :=
+  {| e_orig := d_orig c; e_ops := d_ops c; e_got := got; e_id := d_id c; e_emb := d_emb c; e_texts := d_texts c |}.
+
+Definition dig_text_agrees (c : dig_case) : bool :=
+  let t := dig_model_text c in
+  clean_doc (l_lines (dig_ldoc c)) && forallb op_clean (d_ops c)
+  && (N.of_nat (length t) =? d_len c) && (hash_str t =? d_hash c)
+  && str_eqb (text_of (dig_ldoc c)) (d_orig c).
+
+Definition dig_rows_agree (c : dig_case) : bool := rows_agree (dig_as_emb c []).
+Definition dig_texts_agree (c : dig_case) : bool := texts_agree (dig_as_emb c (dig_model_text c)).
+
+(* the shift amounts the harness used for a text include the model's boundary shifts for every target row *)
+Definition nat_in (k : nat) (l : list nat) : bool := existsb (Nat.eqb k) l.
+
+Record cover_case := { c_text : str; c_nonblank : bool; c_targets : list nat; c_used : list nat }.
+
+Definition shifts_cover (c : cover_case) : bool :=
+  forallb (fun t => forallb (fun k => nat_in k (c_used c))
+                            (boundary_shifts (c_nonblank c) t (regal_lines (c_text c)))) (c_targets c).
+
+(* ... and every row of the text that can reach a target row is really put there (the covering lemma, recomputed) *)
+Definition rows_reach (c : cover_case) : bool :=
+  forallb (fun t =>
+    forallb (fun il => let '(i, l) := il in
+                       (c_nonblank c && blank_line l) || Nat.ltb t (S i)
+                       || existsb (fun k => Nat.eqb (S (i + k)) t) (c_used c))
+            (combine (seq 0 (length (regal_lines (c_text c)))) (regal_lines (c_text c)))) (c_targets c).
